@@ -808,6 +808,15 @@ func (r *msRun) execStep(cl *msClient, depth int) {
 	r.res.Steps++
 	r.seq++
 	u := r.u
+	if st.op == mopAdvance && st.sel%4 != 0 {
+		// An iterator that has lived through a clear() of its collection is kept alive: while fewer than two entries
+		// have been put back its owner mostly refills instead of advancing (advancing now would just exhaust it), so
+		// that iterators regularly continue deep into the entries added after a clear.
+		if it0 := r.ownIter(cl.id, st.sel, false); it0 != nil && !it0.exhausted() && it0.cur.coll == r.cols[it0.col] && it0.cur.coll.live < 2 && it0.cur.coll.clears > it0.cur.era0 {
+			st.op, st.col = mopSet, it0.col
+			r.res.Count("refill-after-clear-under-live-iterator", 1)
+		}
+	}
 	c := st.col
 	coll := r.cols[c]
 	coll.touched |= 1 << uint(cl.id)
@@ -852,11 +861,17 @@ func (r *msRun) execStep(cl *msClient, depth int) {
 		target := ll[(st.sel/3)%len(ll)]
 		if st.sel%3 == 1 {
 			// prefer the entry a live iterator is standing on
-			var on []int
+			var on, deep []int
 			for _, cu := range cursors {
 				if cu.last >= 0 && coll.entries[cu.last].live {
 					on = append(on, cu.last)
+					if coll.entries[cu.last].era > cu.era0 && cu.last != ll[0] {
+						deep = append(deep, cu.last) // ... of an iterator that lived through a clear() and moved on
+					}
 				}
+			}
+			if len(deep) > 0 {
+				on = deep
 			}
 			if len(on) > 0 {
 				target = on[(st.sel/3)%len(on)]
